@@ -7,7 +7,18 @@ pub enum LineIntersection
     Overlap(Coord<R>, Coord<R>),
 }
 
-fn get_intersection_bounding_box(a1: Coord<R>, a2: Coord<R>, b1: Coord<R>, b2: Coord<R>) -> Option<BoundingBox<R>>
+fn get_intersection_bounding_box(a1: Coord<R>, a2: Coord<R>, b1: Coord<R>, b2: Coord<R>) -> /*@ (res: @*/ Option<BoundingBox<R>> /*@ ) @*/
+    //@ ensures match res {
+    //@     // the common box of the two segments' boxes
+    //@     Some(bb) => vx(bb.min) == rmax(rmin(vx(a1), vx(a2)), rmin(vx(b1), vx(b2)))
+    //@              && vy(bb.min) == rmax(rmin(vy(a1), vy(a2)), rmin(vy(b1), vy(b2)))
+    //@              && vx(bb.max) == rmin(rmax(vx(a1), vx(a2)), rmax(vx(b1), vx(b2)))
+    //@              && vy(bb.max) == rmin(rmax(vy(a1), vy(a2)), rmax(vy(b1), vy(b2)))
+    //@              && vx(bb.min) <= vx(bb.max) && vy(bb.min) <= vy(bb.max),
+    //@     // the boxes are disjoint
+    //@     None => rmax(rmin(vx(a1), vx(a2)), rmin(vx(b1), vx(b2))) > rmin(rmax(vx(a1), vx(a2)), rmax(vx(b1), vx(b2)))
+    //@          || rmax(rmin(vy(a1), vy(a2)), rmin(vy(b1), vy(b2))) > rmin(rmax(vy(a1), vy(a2)), rmax(vy(b1), vy(b2))),
+    //@ },
 {
     let (a_start_x, a_end_x) = if a1.x < a2.x { (a1.x, a2.x) } else { (a2.x, a1.x) };
     let (a_start_y, a_end_y) = if a1.y < a2.y { (a1.y, a2.y) } else { (a2.y, a1.y) };
@@ -33,7 +44,12 @@ fn get_intersection_bounding_box(a1: Coord<R>, a2: Coord<R>, b1: Coord<R>, b2: C
     }
 }
 
-fn constrain_to_bounding_box(p: Coord<R>, bb: BoundingBox<R>) -> Coord<R>
+fn constrain_to_bounding_box(p: Coord<R>, bb: BoundingBox<R>) -> /*@ (res: @*/ Coord<R> /*@ ) @*/
+    //@ requires vx(bb.min) <= vx(bb.max), vy(bb.min) <= vy(bb.max),
+    //@ ensures
+    //@     vx(bb.min) <= vx(res) <= vx(bb.max), vy(bb.min) <= vy(res) <= vy(bb.max),
+    //@     vx(bb.min) <= vx(p) <= vx(bb.max) ==> vx(res) == vx(p),
+    //@     vy(bb.min) <= vy(p) <= vy(bb.max) ==> vy(res) == vy(p),
 {
     Coord {
         x: if p.x < bb.min.x {
@@ -53,24 +69,72 @@ fn constrain_to_bounding_box(p: Coord<R>, bb: BoundingBox<R>) -> Coord<R>
     }
 }
 
-pub fn intersection(a1: Coord<R>, a2: Coord<R>, b1: Coord<R>, b2: Coord<R>) -> LineIntersection
+pub fn intersection(a1: Coord<R>, a2: Coord<R>, b1: Coord<R>, b2: Coord<R>) -> /*@ (res: @*/ LineIntersection /*@ ) @*/
+    //@ requires !same_pt(a1, a2), !same_pt(b1, b2),
+    //@ ensures
+    //@     // exact classification and location (the clamp is the identity in exact arithmetic) ...
+    //@     exact_answer(a1, a2, b1, b2, res),
+    //@     // ... and every reported point lies in the bounding boxes of both segments
+    //@     match res {
+    //@         LineIntersection::None => true,
+    //@         LineIntersection::Point(p) => in_bb(p, a1, a2) && in_bb(p, b1, b2),
+    //@         LineIntersection::Overlap(p, q) => in_bb(p, a1, a2) && in_bb(p, b1, b2) && in_bb(q, a1, a2) && in_bb(q, b1, b2),
+    //@     },
 {
     let bb = get_intersection_bounding_box(a1, a2, b1, b2);
     if let Some(bb) = bb {
         let inter = intersection_impl(a1, a2, b1, b2);
         match inter {
             LineIntersection::None => LineIntersection::None,
-            LineIntersection::Point(p) => LineIntersection::Point(constrain_to_bounding_box(p, bb)),
+            LineIntersection::Point(p) => /*@ { proof {
+                    let (s, t) = choose|s: real, t: real| #[trigger] meet(a1, a2, b1, b2, s, t) && is_at(p, a1, a2, s);
+                    lemma_meet_in_boxes(a1, a2, b1, b2, s, t, p);
+                } @*/ LineIntersection::Point(constrain_to_bounding_box(p, bb)) /*@ } @*/,
             LineIntersection::Overlap(p1, p2) => {
-                LineIntersection::Overlap(constrain_to_bounding_box(p1, bb), constrain_to_bounding_box(p2, bb))
+                //@ proof {
+                //@     let (u1, u2) = choose|u1: real, u2: real| {
+                //@         &&& 0real <= u1 < u2 <= 1real
+                //@         &&& #[trigger] is_at(p1, a1, a2, u1) && #[trigger] is_at(p2, a1, a2, u2)
+                //@         &&& forall|s: real, t: real| #[trigger] meet(a1, a2, b1, b2, s, t) ==> u1 <= s <= u2
+                //@         &&& forall|s: real| u1 <= s <= u2 ==> #[trigger] on_both(a1, a2, b1, b2, s)
+                //@     };
+                //@     assert(on_both(a1, a2, b1, b2, u1) && on_both(a1, a2, b1, b2, u2));
+                //@     let t1 = choose|t: real| meet(a1, a2, b1, b2, u1, t);
+                //@     let t2 = choose|t: real| meet(a1, a2, b1, b2, u2, t);
+                //@     lemma_meet_in_boxes(a1, a2, b1, b2, u1, t1, p1);
+                //@     lemma_meet_in_boxes(a1, a2, b1, b2, u2, t2, p2);
+                //@ }
+                /*@ let ov = @*/ LineIntersection::Overlap(constrain_to_bounding_box(p1, bb), constrain_to_bounding_box(p2, bb)) /*@ ;
+                proof {
+                    let (u1, u2) = choose|u1: real, u2: real| {
+                        &&& 0real <= u1 < u2 <= 1real
+                        &&& #[trigger] is_at(p1, a1, a2, u1) && #[trigger] is_at(p2, a1, a2, u2)
+                        &&& forall|s: real, t: real| #[trigger] meet(a1, a2, b1, b2, s, t) ==> u1 <= s <= u2
+                        &&& forall|s: real| u1 <= s <= u2 ==> #[trigger] on_both(a1, a2, b1, b2, s)
+                    };
+                    if let LineIntersection::Overlap(c1, c2) = ov {
+                        assert(is_at(c1, a1, a2, u1) && is_at(c2, a1, a2, u2));
+                    }
+                }
+                ov @*/
             }
         }
     } else {
+        //@ proof {
+        //@     assert forall|s: real, t: real| !#[trigger] meet(a1, a2, b1, b2, s, t) by {
+        //@         if meet(a1, a2, b1, b2, s, t) {
+        //@             lemma_seg_in_box(a1, a2, s);
+        //@             lemma_seg_in_box(b1, b2, t);
+        //@         }
+        //@     }
+        //@ }
         LineIntersection::None
     }
 }
 
-fn intersection_impl(a1: Coord<R>, a2: Coord<R>, b1: Coord<R>, b2: Coord<R>) -> LineIntersection
+fn intersection_impl(a1: Coord<R>, a2: Coord<R>, b1: Coord<R>, b2: Coord<R>) -> /*@ (res: @*/ LineIntersection /*@ ) @*/
+    //@ requires !same_pt(a1, a2), !same_pt(b1, b2),
+    //@ ensures exact_answer(a1, a2, b1, b2, res),
 {
     // println!("{:?} {:?} {:?} {:?}", a1, a2, b1, b2);
     let va = Coord {
@@ -88,16 +152,29 @@ fn intersection_impl(a1: Coord<R>, a2: Coord<R>, b1: Coord<R>, b2: Coord<R>) -> 
     let mut kross = cross_product(va, vb);
     let mut sqr_kross = kross * kross;
     let sqr_len_a = dot_product(va, va);
+    //@ let ghost k = kross.v@;
+    //@ proof {
+    //@     assert(k == kross_(a1, a2, b1, b2));
+    //@     assert(sqr_kross.v@ > 0real <==> k != 0real) by(nonlinear_arith) requires sqr_kross.v@ == k * k;
+    //@ }
 
     if sqr_kross > R::zero() {
         let s = cross_product(e, vb) / kross;
+        //@ let ghost tt = (vx(e) * vy(va) - vy(e) * vx(va)) / k;
+        //@ proof {
+        //@     assert(s.v@ * k == vx(e) * vy(vb) - vy(e) * vx(vb)) by(nonlinear_arith) requires s.v@ == (vx(e) * vy(vb) - vy(e) * vx(vb)) / k, k != 0real;
+        //@     assert(tt * k == vx(e) * vy(va) - vy(e) * vx(va)) by(nonlinear_arith) requires tt == (vx(e) * vy(va) - vy(e) * vx(va)) / k, k != 0real;
+        //@     lemma_nonparallel(a1, a2, b1, b2, s.v@, tt);
+        //@ }
         if s < R::zero() || s > R::one() {
             return LineIntersection::None;
         }
         let t = cross_product(e, va) / kross;
+        //@ proof { assert(t.v@ == tt); }
         if t < R::zero() || t > R::one() {
             return LineIntersection::None;
         }
+        //@ proof { assert(meet(a1, a2, b1, b2, s.v@, tt)); }
 
         if s == R::zero() || s == R::one() {
             return LineIntersection::Point(mid_point(a1, s, va));
@@ -111,34 +188,74 @@ fn intersection_impl(a1: Coord<R>, a2: Coord<R>, b1: Coord<R>, b2: Coord<R>) -> 
 
     kross = cross_product(e, va);
     sqr_kross = kross * kross;
+    //@ let ghost k2 = kross.v@;
+    //@ proof { assert(sqr_kross.v@ > 0real <==> k2 != 0real) by(nonlinear_arith) requires sqr_kross.v@ == k2 * k2; }
 
     if sqr_kross > R::zero() {
+        //@ proof { lemma_parallel_disjoint(a1, a2, b1, b2); }
         return LineIntersection::None;
     }
 
+    //@ let ghost l = sqr_len_a.v@;
+    //@ proof {
+    //@     lemma_sq_pos(vx(va), vy(va));
+    //@     assert(l == ux_(a1, a2) * ux_(a1, a2) + uy_(a1, a2) * uy_(a1, a2));
+    //@ }
     let sa = dot_product(va, e) / sqr_len_a;
     let sb = sa + dot_product(va, vb) / sqr_len_a;
+    //@ let ghost (sav, sbv) = (sa.v@, sb.v@);
+    //@ proof {
+    //@     let dv = (vx(va) * vx(vb) + vy(va) * vy(vb)) / l;
+    //@     assert(sav * l == vx(va) * vx(e) + vy(va) * vy(e)) by(nonlinear_arith) requires sav == (vx(va) * vx(e) + vy(va) * vy(e)) / l, l != 0real;
+    //@     assert(dv * l == vx(va) * vx(vb) + vy(va) * vy(vb)) by(nonlinear_arith) requires dv == (vx(va) * vx(vb) + vy(va) * vy(vb)) / l, l != 0real;
+    //@     assert(sbv - sav == dv);
+    //@     lemma_collinear(a1, a2, b1, b2, sav, sbv);
+    //@     lemma_collinear_range(a1, a2, b1, b2, sav, sbv);
+    //@ }
     let smin = sa.min(sb);
     let smax = sa.max(sb);
+    //@ proof { assert(smin.v@ == rmin(sav, sbv) && smax.v@ == rmax(sav, sbv) && smin.v@ < smax.v@); }
 
     if smin <= R::one() && smax >= R::zero() {
         if smin == R::one() {
+            //@ proof {
+            //@     assert(on_both(a1, a2, b1, b2, 1real));
+            //@     let t = choose|t: real| meet(a1, a2, b1, b2, 1real, t);
+            //@     assert(meet(a1, a2, b1, b2, 1real, t));
+            //@ }
             return LineIntersection::Point(mid_point(a1, smin, va));
         }
         if smax == R::zero() {
+            //@ proof {
+            //@     assert(on_both(a1, a2, b1, b2, 0real));
+            //@     let t = choose|t: real| meet(a1, a2, b1, b2, 0real, t);
+            //@     assert(meet(a1, a2, b1, b2, 0real, t));
+            //@ }
             return LineIntersection::Point(mid_point(a1, smax, va));
         }
 
-        return LineIntersection::Overlap(
+        return /*@ { let ov = @*/ LineIntersection::Overlap(
             mid_point(a1, smin.max(R::zero()), va),
             mid_point(a1, smax.min(R::one()), va),
-        );
+        ) /*@ ;
+            proof {
+                let u1 = rmax(smin.v@, 0real);
+                let u2 = rmin(smax.v@, 1real);
+                assert(0real <= u1 < u2 <= 1real);
+                if let LineIntersection::Overlap(p, q) = ov {
+                    assert(is_at(p, a1, a2, u1) && is_at(q, a1, a2, u2));
+                    assert forall|s: real| u1 <= s <= u2 implies #[trigger] on_both(a1, a2, b1, b2, s) by {}
+                    assert forall|s: real, t: real| #[trigger] meet(a1, a2, b1, b2, s, t) implies u1 <= s <= u2 by {}
+                }
+            }
+            ov } @*/;
     }
 
     LineIntersection::None
 }
 
-fn mid_point(p: Coord<R>, s: R, d: Coord<R>) -> Coord<R>
+fn mid_point(p: Coord<R>, s: R, d: Coord<R>) -> /*@ (res: @*/ Coord<R> /*@ ) @*/
+    //@ ensures vx(res) == vx(p) + s.v@ * vx(d), vy(res) == vy(p) + s.v@ * vy(d),
 {
     Coord {
         x: p.x + s * d.x,
@@ -146,12 +263,14 @@ fn mid_point(p: Coord<R>, s: R, d: Coord<R>) -> Coord<R>
     }
 }
 
-fn cross_product(a: Coord<R>, b: Coord<R>) -> R
+fn cross_product(a: Coord<R>, b: Coord<R>) -> /*@ (res: @*/ R /*@ ) @*/
+    //@ ensures res.v@ == vx(a) * vy(b) - vy(a) * vx(b),
 {
     a.x * b.y - a.y * b.x
 }
 
-fn dot_product(a: Coord<R>, b: Coord<R>) -> R
+fn dot_product(a: Coord<R>, b: Coord<R>) -> /*@ (res: @*/ R /*@ ) @*/
+    //@ ensures res.v@ == vx(a) * vx(b) + vy(a) * vy(b),
 {
     a.x * b.x + a.y * b.y
 }
